@@ -15,6 +15,11 @@ RULE = ("newton.jac cases (Mat64::jacobian and Matrix::<Cmplx>::jacobian_cmplx):
         "1 <= m, n <= 6 (m < n and m > n included) on dyadic data, points in [-4,4]^n, delta = 2^-k (k = 4..26, where every "
         "operation is exact) and delta = 1e-8; (b) smooth polynomial/rational maps with symbolically known derivatives; "
         "(c) degenerate shapes m = 0 / n = 0; f64 and Complex<f64>; user functions are ASTs shared with the Gallina model; "
+        "(d) special structure (specB): complex points entirely on the real axis / entirely on the imaginary axis / every coordinate on an "
+        "axis or one of 0, +-1, +-i, with general, purely real, purely imaginary and unit coefficients (function values purely real or purely "
+        "imaginary); coordinates -delta, +delta, -2 delta, 0 (perturb and restore pass through exact zero), all coordinates equal, "
+        "coordinates at the ends +-4; affine maps whose matrix is a (rectangular) identity, a permutation, all +-1 / +-i, has zero ROWS "
+        "(constant components) or a single entry; "
         "compared: shape, entries, number and SEQUENCE of call points; distinct = distinct executor line; non-trivial = m, n >= 1")
 TRUSTED = ["Coq 8.16.1 kernel + vm_compute (primitive floats)", "Rust executor /verif/harness (k_newton.rs, fnast.rs)",
            "python driver (generators, AST printers fnlib.py, symbolic-derivative oracle, comparators)",
@@ -31,7 +36,9 @@ MANIFEST = dict(
           "jacobian_entry -- entry (i,j) is the forward quotient (f_i(x+d e_j) - f_i(x))/d; jacobian_affine -- over a field the "
           "Jacobian of x -> Mx + c is the record M itself (d <> 0). The float instance of the "
           "same definition is run against the implementation (shape, entries, call sequence; bit-compared) on affine maps of every "
-          "shape 1..6 x 1..6 with dyadic data and on smooth maps, f64 and Complex; an independent oracle (exactness on dyadic affine "
+          "shape 1..6 x 1..6 with dyadic data and on smooth maps, f64 and Complex, including axis-aligned complex points and coefficients, "
+          "coordinates that perturb/restore drive through exact zero, equal coordinates and special matrices (identity, permutation, +-1, "
+          "zero rows); an independent oracle (exactness on dyadic affine "
           "data, symbolic derivatives, restore discipline) searches for a failing input."),
     note="Truncation, rounding floor and restoration drift are theorems (standard rounding model and binary64 under finiteness / no-underflow hypotheses); exactness on dyadic data is a theorem with explicit bounds; the search checks the same on the implementation.",
     technique="Coq proof over an abstract ring/field + model/implementation differential execution (vm_compute on primitive floats vs Rust executor)",
@@ -103,6 +110,104 @@ def gen_delta(rng, which):
     if which == "dec": return 1e-8
     return 2.0 ** -rng.range(4, 26)
 
+# ---------------------------------------------------------------- specB: special STRUCTURE of points, coefficients and maps
+def affine_with(elt, M, c, x, delta, family, m, n):
+    es = affine_exprs(elt, M, c, m, n)
+    return mk(elt, x, delta, es, {"kind": "affine", "M": M, "c": c, "dyadic": True}, family, nontrivial=(m >= 1 and n >= 1))
+
+def axis_value(rng, cls):
+    """a Gaussian-dyadic complex number on an axis: 'real' (imaginary part exactly 0), 'imag' (real part exactly 0), 'unit'
+    (one of 0, 1, -1, i, -i), 'mixed' (one of the three at random)"""
+    if cls == 'mixed': cls = ['real', 'imag', 'unit'][rng.below(3)]
+    if cls == 'unit': return [0j, 1 + 0j, -1 + 0j, 1j, -1j][rng.below(5)]
+    v = dy(rng, -4, 4, 16)
+    if v == 0: v = 0.5
+    return complex(v, 0.0) if cls == 'real' else complex(0.0, v)
+
+def zero_cross_coord(rng, elt, delta):
+    """a coordinate that the perturb/restore pair drives THROUGH exact zero: x_j = -delta (perturbed value exactly 0), +delta,
+    0, -2 delta; complex: the same in the real part with a zero or non-zero imaginary part"""
+    re = [-delta, -delta, delta, 0.0, -2 * delta][rng.below(5)]
+    if elt == 'f64': return re
+    im = [0.0, 0.0, dy(rng, -4, 4, 16), dy(rng, -4, 4, 16)][rng.below(4)]
+    return complex(re, im)
+
+def special_matrix(rng, elt, m, n, which):
+    """'eye' (rectangular identity), 'perm' (a permutation of the rectangular identity's columns), 'signs' (every entry +-1, for
+    complex +-1 / +-i), 'zero-rows' (dyadic entries, some components constant: exact zero ROWS), 'single' (one non-zero entry)"""
+    one = complex(1.0, 0.0) if elt == 'cplx' else 1.0
+    zero = 0.0 * one
+    M = [zero] * (m * n)
+    if which in ('eye', 'perm'):
+        cols = list(range(n)) if which == 'eye' else rng.shuffle(list(range(n)))
+        for i in range(min(m, n)): M[i * n + cols[i]] = one
+    elif which == 'signs':
+        units = [one, -one] + ([1j * one, -1j * one] if elt == 'cplx' else [])
+        M = [units[rng.below(len(units))] for _ in range(m * n)]
+    elif which == 'zero-rows':
+        M = [dyval(rng, elt, -4, 4, 8) for _ in range(m * n)]
+        dead = [i for i in range(m) if rng.chance(1, 2)] or [rng.below(m)]
+        for i in dead:
+            for j in range(n): M[i * n + j] = zero
+    else:
+        M[rng.below(m) * n + rng.below(n)] = dyval(rng, elt, 1, 4, 8)
+    return M
+
+def gen_special(rng, tier):
+    cases = []
+    q = (tier == "quick")
+    # (1) complex points on the axes x coefficient classes: purely real points with complex coefficients, purely imaginary points,
+    # mixed axes / units; coefficients general or axis-aligned (function values then purely real / purely imaginary)
+    g = rng.fork("axis")
+    for t in range(48 if q else 240):
+        m, n = g.range(1, 4), g.range(1, 4)
+        pcls = ['real', 'imag', 'mixed', 'real'][t % 4]
+        ccls = ['general', 'imag', 'real', 'mixed'][(t // 4) % 4]
+        x = [axis_value(g, pcls) for _ in range(n)]
+        delta = gen_delta(g, "dy") if t % 6 else 1e-8
+        if t % 3 != 2:
+            coef = (lambda: dyval(g, 'cplx', -4, 4, 8)) if ccls == 'general' else (lambda: axis_value(g, ccls))
+            M = [coef() for _ in range(m * n)]; c = [coef() for _ in range(m)]
+            es = affine_exprs('cplx', M, c, m, n)
+            dyad = (math.frexp(delta)[0] == 0.5)
+            cases.append(mk('cplx', x, delta, es, {"kind": "affine", "M": M, "c": c, "dyadic": dyad}, "axis-affine-%s-point-%s-coef" % (pcls, ccls)))
+        else:
+            es = smooth_exprs(g, 'cplx', m, n) if t % 2 else sparse_exprs(g, 'cplx', m, max(n, 2))
+            if t % 2 == 0 and n < 2: x = x + [axis_value(g, pcls)]
+            cases.append(mk('cplx', x, delta, es, {"kind": "smooth"}, "axis-smooth-%s-point" % pcls))
+    # (2) coordinates driven through exact zero by perturb / restore; equal coordinates; coordinates at the ends +-4 and at +-1
+    g = rng.fork("zero-cross")
+    for t in range(36 if q else 180):
+        elt = 'f64' if t % 3 != 2 else 'cplx'
+        m, n = g.range(1, 4), g.range(1, 5)
+        delta = gen_delta(g, "dy")
+        cls = ["zero-cross", "zero-cross", "equal", "ends"][t % 4]
+        if cls == "zero-cross":
+            x = [zero_cross_coord(g, elt, delta) if (g.chance(1, 2) or j == t % n) else dyval(g, elt, -4, 4, 16) for j in range(n)]
+        elif cls == "equal":
+            v = dyval(g, elt, -4, 4, 16); x = [v] * n
+        else:
+            pool = [4.0, -4.0, 1.0, -1.0, 0.0]
+            x = [(complex(pool[g.below(5)], pool[g.below(5)]) if elt == 'cplx' else pool[g.below(5)]) for _ in range(n)]
+        if t % 5 != 4:
+            M = [dyval(g, elt, -4, 4, 8) for _ in range(m * n)]; c = [dyval(g, elt, -4, 4, 8) for _ in range(m)]
+            cases.append(affine_with(elt, M, c, x, delta, "point-%s-affine-%s" % (cls, elt), m, n))
+        else:
+            cases.append(mk(elt, x, delta, smooth_exprs(g, elt, m, n), {"kind": "smooth"}, "point-%s-smooth-%s" % (cls, elt)))
+    # (3) special matrices: identity / permutation / +-1 (+-i) entries / constant components (zero rows) / a single entry
+    g = rng.fork("special-M")
+    kinds = ['eye', 'perm', 'signs', 'zero-rows', 'single']
+    for t in range(30 if q else 120):
+        elt = 'f64' if t % 2 == 0 else 'cplx'
+        which = kinds[t % 5]
+        m, n = g.range(1, 6), g.range(1, 6)
+        M = special_matrix(g, elt, m, n, which)
+        zero = complex(0.0, 0.0) if elt == 'cplx' else 0.0
+        c = [zero if g.chance(1, 2) else dyval(g, elt, -4, 4, 8) for _ in range(m)]
+        x = [dyval(g, elt, -4, 4, 16) for _ in range(n)]
+        cases.append(affine_with(elt, M, c, x, gen_delta(g, "dy"), "matrix-%s-%s" % (which, elt), m, n))
+    return cases
+
 def generate(rng, tier):
     cases = []
     reps = 2 if tier == "quick" else 8
@@ -149,6 +254,8 @@ def generate(rng, tier):
             cases.append(affine_case(g, elt, m, 0, 2.0 ** -8, True, "edge-n0"))
         for n in range(1, 4):
             cases.append(affine_case(g, elt, 0, n, 2.0 ** -8, True, "edge-m0"))
+    # specB: axis-aligned complex data, coordinates driven through zero, special matrices
+    cases += gen_special(rng.fork("specB"), tier)
     # spread heavy (6 x 6 complex) and light cases evenly over the model shards
     return rng.fork("order").shuffle(cases)
 
